@@ -25,8 +25,16 @@ def run_history(rec, prop, case, nontrivial, label=None, sample_extra=None):
     text = configs.materialise(case)
     mon = monitor.HistoryMonitor()
     args = dict(case)
+    import os as _os, time as _time
+    _t0 = _time.time()
     try:
-        ctx, reason = engine.run(text, case["seed"], case["events"], mon, cluster=case.get("cluster"))
+        try:
+            ctx, reason = engine.run(text, case["seed"], case["events"], mon, cluster=case.get("cluster"))
+        finally:
+            if _os.environ.get("VERIF_SLOW_CASES") and _time.time() - _t0 > float(_os.environ["VERIF_SLOW_CASES"]):
+                import sys as _sys
+                _sys.stderr.write("SLOW %.1fs %s commits=%d edits=%r second=%r\n" % (
+                    _time.time() - _t0, case["base"], mon.stats["commits"], case["edits"], case.get("second_sampling")))
     except (HarnessError, Violation):
         raise
     except Exception as exc:
@@ -45,6 +53,8 @@ def run_history(rec, prop, case, nontrivial, label=None, sample_extra=None):
             rec.fail(sig, msg, args)
         else:
             rec.exclude("run aborted by an exception attributed to %s (%s)" % (owner, sig))
+            rec.notes.append("excluded: %s [%s, edits %r, seed %d, second sampling %r]" % (
+                msg[:300], case["base"], case["edits"], case["seed"], case.get("second_sampling")))
         return None
     for v in mon.by_property(prop):
         rec.fail("%s/%s" % (prop, v["signature"]), "%s [config %s, seed %d, commit %s]" % (
